@@ -63,6 +63,7 @@ RSpec == RInit /\ [][RNext]_vars
 CaughtUpMirrors == CaughtUpMirrorsOf(obs)
 StatusTracks == StatusTracksOf(obs)
 NoOrphans == NoOrphansOf(obs)
+AllKnownTracked == AllKnownTrackedOf(obs)
 \* a node is pending only while one of its addresses is missing
 PendingOnlyWhileIncomplete ==
   \A o \in Node : \A n \in DOMAIN obs[o].pend : obs[o].pend[n].proxy = "" \/ obs[o].pend[n].admin = ""
